@@ -502,6 +502,32 @@ fn s_join() -> Result<(), String> {
     if l.len() != 4 || r.len() != 5 {
         return Err("setup: base tables do not read back".into());
     }
+    // self-joins: both sides contribute the same prefixed names; a name means its first (left) occurrence
+    for left in [false, true] {
+        let on = Expr::col("L.K").lt(Expr::integer(3));
+        let sel = if left { Select::table("L").left_join(Select::table("L"), on) } else { Select::table("L").inner_join(Select::table("L"), on) };
+        let got = all(&mut p, sel)?;
+        let mut want: Vec<Vec<Value>> = Vec::new();
+        for a in &l {
+            let mut any = false;
+            for b in &l {
+                if a[0] < Value::Int(3) {
+                    want.push(a.iter().chain(b.iter()).cloned().collect());
+                    any = true;
+                }
+            }
+            if left && !any {
+                want.push(a.iter().cloned().chain(b_nulls(a.len())).collect());
+            }
+        }
+        if got != want {
+            return Err(format!("{} self-join ON L.K < 3 returned {:?}, with the name resolved to its first occurrence the reference gives {:?}", if left { "left" } else { "inner" }, got, want));
+        }
+        let proj = all(&mut p, Select::table("L").left_join(Select::table("L"), Expr::col("L.K").eq(Expr::integer(-1))).columns(&["L.K"]))?;
+        if proj != l.iter().map(|a| vec![a[0].clone()]).collect::<Vec<_>>() {
+            return Err(format!("projecting L.K over a self left join that matches nothing returned {:?}", proj));
+        }
+    }
     // an empty side: an inner join is empty; a left join keeps every left row, padded
     p.create_table("E", cols()).map_err(|e| e.to_string())?;
     for (what, sel, want_rows) in [
@@ -614,10 +640,17 @@ fn s_keys() -> Result<(), String> {
     if r.is_err() && after1 != after {
         return Err("a refused single-row key update changed the table".into());
     }
+    // the key assigned twice in one statement: the last assignment is the one stored, so it is the one that must be checked
+    let r = p.update_rows(Update::table("T").set("K", Value::Int(50)).set("K", Value::Int(2)).with(Expr::col("K").eq(Expr::integer(3))));
+    let after1b = invariant(&mut p, "T", 1, "after UPDATE T SET K = 50, K = 2 WHERE K = 3")?;
+    if r.is_err() && after1b != after1 {
+        return Err("a refused double key assignment changed the table".into());
+    }
+    let after1 = after1b;
     // the key assigned after another column in the same statement
     let r = p.update_rows(Update::table("T").set("S", Value::from("same")).set("K", Value::Int(8)));
     let after2 = invariant(&mut p, "T", 1, "after UPDATE T SET S = 'same', K = 8")?;
-    if r.is_err() && after2 != after {
+    if r.is_err() && after2 != after1 {
         return Err("a refused two-column key update changed the table".into());
     }
     // values the column does not admit are refused, also for nullable columns
